@@ -412,6 +412,11 @@ func (p *Planner) tryOptimizeJoinDirectionByFilter(node *invertibleTypeJoin, par
 				mapper.Field{Name: subFieldName, Index: subFieldInd})
 
 			fieldFilter := extractRelatedSubFilter(relevantFilter, node.parentSide.plan.DocumentMap(), relatedField)
+			if fieldFilter == nil || holdsWithoutValue(fieldFilter.Conditions) {
+				// A condition that also holds when there is no related document (or no value), such as
+				// _ne, selects parents that the index of the child field does not lead to.
+				return false, nil
+			}
 			// At the moment we just take the first index, but later we want to run some kind of analysis to
 			// determine which index is best to use. https://github.com/sourcenetwork/defradb/issues/2680
 			err := node.invertJoinDirectionWithIndex(indexes[0], fieldFilter, nil)
@@ -422,6 +427,44 @@ func (p *Planner) tryOptimizeJoinDirectionByFilter(node *invertibleTypeJoin, par
 		}
 	}
 	return false, nil
+}
+
+// holdsWithoutValue reports whether the conditions contain an operator that is satisfied by a missing value.
+func holdsWithoutValue(conditions any) bool {
+	switch typedCond := conditions.(type) {
+	case map[connor.FilterKey]any:
+		for k, v := range typedCond {
+			if op, ok := k.(*mapper.Operator); ok {
+				switch op.Operation {
+				case connor.NotEqualOp, connor.NotInOp, connor.NotLikeOp, connor.CaseInsensitiveNotLikeOp,
+					connor.NotOp, connor.NoneOp:
+					return true
+				case connor.EqualOp:
+					if v == nil {
+						return true
+					}
+				case connor.InOp:
+					if list, ok := v.([]any); ok {
+						for _, e := range list {
+							if e == nil {
+								return true
+							}
+						}
+					}
+				}
+			}
+			if holdsWithoutValue(v) {
+				return true
+			}
+		}
+	case []any:
+		for _, v := range typedCond {
+			if holdsWithoutValue(v) {
+				return true
+			}
+		}
+	}
+	return false
 }
 
 // extractRelatedSubFilter extracts the sub filter from the parent filter.
